@@ -532,3 +532,52 @@ Proof.
       try (intros [H|H]; [discriminate H|exact H]).
   - vm_compute. split; reflexivity.
 Qed.
+
+(* ======================================================================
+   Part 6 - the memo of Propagator as OBJECTS (Model/C11_alias.v): the
+   integrator updates its working buffer in place, Solver.step hands out a
+   copy of it (copy=True, what Propagator asks for) and Solver.start copies
+   into a new buffer.  Quantifiers: every content type, every history of
+   start / step(+insert) / new-object(+insert) / evict operations, i.e. every
+   sequence of branches _compute and _insert can take.
+   ====================================================================== *)
+From QV Require Import Model.C11_alias Proofs.C11_alias.
+
+(* no object stored in the memo is ever the integrator's working buffer *)
+Theorem C11_propagator_memo_not_aliased :
+  forall V dflt one ops,
+    let s := a_run V dflt true (a_init V one) ops in
+    ~ In (a_buf s) (a_memo s) /\ forall id, In id (a_memo s) -> (id < a_next s)%nat.
+Proof.
+  intros V dflt one ops s.
+  destruct (a_run_inv V dflt ops _ (a_init_inv V one)) as (A & _ & B). split; assumption.
+Qed.
+Print Assumptions C11_propagator_memo_not_aliased.
+
+(* whatever is done next, every object already in the memo keeps its content:
+   re-reading an entry gives the matrix first stored *)
+Theorem C11_propagator_memo_entries_immutable :
+  forall V dflt one ops o,
+    let s := a_run V dflt true (a_init V one) ops in
+    forall id, In id (a_memo s) ->
+      hget V dflt (a_heap (a_do V dflt true s o)) id = hget V dflt (a_heap s) id.
+Proof.
+  intros V dflt one ops o s id Hin.
+  exact (proj2 (a_do_spec V dflt s o (a_run_inv V dflt ops _ (a_init_inv V one))) id Hin).
+Qed.
+Print Assumptions C11_propagator_memo_entries_immutable.
+
+(* non-vacuity, and the witness of the rule `copy=False` (seeded changes
+   C11_4 / C10_4): with copies the first entry keeps its content 1 while the
+   integrator moves on; without, the stored objects ARE the buffer and all
+   show its latest content *)
+Example C11_propagator_memo_alias_witness :
+  let ops := [AStep (Z.add 1%Z) true; AStep (Z.add 1%Z) true; AStart (Some 0%nat) 0%Z;
+              AStep (Z.add 5%Z) true] in
+  a_values Z 0%Z (a_run Z 0%Z true (a_init Z 0%Z) ops) = [7; 2; 1; 0]%Z /\
+  a_shared Z (a_run Z 0%Z true (a_init Z 0%Z) ops) = [false; false; false; false] /\
+  a_values Z 0%Z (a_run Z 0%Z false (a_init Z 0%Z)
+                        [AStep (Z.add 1%Z) true; AStep (Z.add 1%Z) true]) = [2; 2; 0]%Z /\
+  a_shared Z (a_run Z 0%Z false (a_init Z 0%Z)
+                    [AStep (Z.add 1%Z) true; AStep (Z.add 1%Z) true]) = [true; true; false].
+Proof. vm_compute. repeat split. Qed.
